@@ -14,14 +14,6 @@ open AdaptaVerif.Gen AdaptaVerif.Gen.DijkstraK AdaptaVerif.Gen.KeysShortest
 open AdaptaVerif.Model.ShortestPaths AdaptaVerif.Model.PairingHeap AdaptaVerif.Lemmas.GenLoopBridge
 open AdaptaVerif.Lemmas.DijkstraRelaxBridge AdaptaVerif.Lemmas.Apsp AdaptaVerif.Spec.Apsp
 
-/-- the model's pairing heap as the heap of the generated `dijkstra` -/
-def modelOps : HeapOps (PTree Dist) where
-  empty := .nil
-  isEmpty h := (findMin h).isNone
-  insert h i vs := insert ltDist h (aget vs i).d i
-  extractMin h := (((findMin h).map (·.2)).getD 0, deleteMin ltDist h)
-  decreaseKey := decKeyM
-
 /-! ### first loop: `vs[i].id = i; vs[i].d = max; vs[i].p = nullptr` -/
 
 theorem body1_spec (i : Nat) (w : Array NodeK) (hi : i < w.size) :
